@@ -270,6 +270,23 @@ static inline __attribute__((always_inline)) void on_event() {
     }
 }
 void sim_event() { on_event(); }
+// a load / store of library code: remember the event if it touches one of the two machine words this task's memory
+// shares with its neighbours', or anything beyond its own range inside the arena block
+static uintptr_t g_arena_blk_lo = 0, g_arena_blk_span = 0;
+static inline __attribute__((always_inline)) void on_access(void *addr, unsigned sz) {
+    Task *t = t_self;
+    if (t && t->in_op && g_sim.cfg.rec_edges) {
+        uintptr_t a = (uintptr_t)addr;
+        if (a - g_arena_blk_lo < g_arena_blk_span) {
+            uintptr_t off = a - (uintptr_t)t->arena.base; // wraps for addresses below the task's own arena
+            if (off < 8 || off + sz > (uintptr_t)ARENA_SIZE - 8) {
+                OpResult &r = t->res[t->cur_op];
+                if (r.n_edge < 24 && (r.n_edge == 0 || r.edge_ev[r.n_edge - 1] != t->ev + 1)) r.edge_ev[r.n_edge++] = t->ev + 1;
+            }
+        }
+    }
+    on_event();
+}
 
 extern "C" {
 NOSAN void __sanitizer_cov_trace_pc_guard_init(uint32_t *start, uint32_t *stop) {
@@ -306,16 +323,16 @@ NOSAN void __sanitizer_cov_trace_const_cmp2(uint16_t, uint16_t) { on_event(); }
 NOSAN void __sanitizer_cov_trace_const_cmp4(uint32_t, uint32_t) { on_event(); }
 NOSAN void __sanitizer_cov_trace_const_cmp8(uint64_t, uint64_t) { on_event(); }
 NOSAN void __sanitizer_cov_trace_switch(uint64_t, uint64_t *) { on_event(); }
-NOSAN void __sanitizer_cov_load1(void *) { on_event(); }
-NOSAN void __sanitizer_cov_load2(void *) { on_event(); }
-NOSAN void __sanitizer_cov_load4(void *) { on_event(); }
-NOSAN void __sanitizer_cov_load8(void *) { on_event(); }
-NOSAN void __sanitizer_cov_load16(void *) { on_event(); }
-NOSAN void __sanitizer_cov_store1(void *) { on_event(); }
-NOSAN void __sanitizer_cov_store2(void *) { on_event(); }
-NOSAN void __sanitizer_cov_store4(void *) { on_event(); }
-NOSAN void __sanitizer_cov_store8(void *) { on_event(); }
-NOSAN void __sanitizer_cov_store16(void *) { on_event(); }
+NOSAN void __sanitizer_cov_load1(void *a) { on_access(a, 1); }
+NOSAN void __sanitizer_cov_load2(void *a) { on_access(a, 2); }
+NOSAN void __sanitizer_cov_load4(void *a) { on_access(a, 4); }
+NOSAN void __sanitizer_cov_load8(void *a) { on_access(a, 8); }
+NOSAN void __sanitizer_cov_load16(void *a) { on_access(a, 16); }
+NOSAN void __sanitizer_cov_store1(void *a) { on_access(a, 1); }
+NOSAN void __sanitizer_cov_store2(void *a) { on_access(a, 2); }
+NOSAN void __sanitizer_cov_store4(void *a) { on_access(a, 4); }
+NOSAN void __sanitizer_cov_store8(void *a) { on_access(a, 8); }
+NOSAN void __sanitizer_cov_store16(void *a) { on_access(a, 16); }
 }
 
 void dump_unhit_pcs(const char *path) {
@@ -968,6 +985,8 @@ static void arena_alloc(Task &t) {
         mprotect(m, 4096, PROT_NONE);
         mprotect(m + total - 4096, 4096, PROT_NONE);
         g_arena_block = m;
+        g_arena_blk_lo = (uintptr_t)m;
+        g_arena_blk_span = total;
     }
     if (t.id < 0 || t.id >= MAX_ARENAS) { fprintf(stderr, "sim: too many tasks\n"); _exit(2); }
     t.arena.map = g_arena_block;
